@@ -13,6 +13,26 @@ from tailmon import fidx
 POS = ('Ok', 'OkUpdateDeferred')
 
 
+NEED = {'invalid', 'throttled-request', 'started-request', 'already-running-check', 'already-running-reboot', 'scheduled-check',
+        'reboot', 'ondemand-upgrade', 'minimum-wait', 'report-ok', 'report-skipped'}
+PLAN_LABELS = {'quick': ['requests-no-reboot', 'requests-reboot-wait', 'two-iterations-no-requests-no-reboot', 'reboot-wait-two-rounds', 'startup-report-two-iterations'],
+               'thorough': ['two-requests-no-reboot', 'two-requests-reboot-wait', 'two-iterations-one-request']}
+
+
+def parts(tier):
+    """one part per exploration plan (run in parallel processes by Check.parallel)"""
+    return ['run:' + l for l in PLAN_LABELS['quick'] + (PLAN_LABELS['thorough'] if tier == 'thorough' else [])]
+
+
+def post_merge(chk):
+    """vacuity guard over the union of what the plans reached"""
+    cover = set(chk.extra.get('run_covered') or [])
+    for o in chk.obligations:
+        if o.name == 'run-explored' and o.status == 'holds' and not NEED <= cover:
+            o.status = 'inconclusive'
+            o.detail = 'vacuous: not reached: %s' % sorted(NEED - cover)
+
+
 def pendable(name):
     return name.endswith('Timer>::wait_for') or name.endswith('Timer>::wait_until')
 
@@ -153,6 +173,11 @@ def monitor_run(chk, tier):
     cover = set()
     samples = []
     info = []
+    single = chk.part[len('run:'):] if (chk.part or '').startswith('run:') else None
+    if single is not None:
+        plans = [pl for pl in plans if pl['label'] == single]
+        if not plans:
+            raise Inconclusive('no exploration plan named %s' % single)
     for plan in plans:
         t_plan = time.time()
         ex, res = explore_run(chk, nctl=plan['nctl'], unroll=plan['unroll'], max_pending=plan.get('max_pending', 1), max_paths=plan['max_paths'], assume=plan['assume'], polls=plan.get('polls', 6), pend_policy=plan.get('pend_policy'), iters=plan.get('iters'))
@@ -176,9 +201,8 @@ def monitor_run(chk, tier):
     chk.samples.append({'run_paths': samples})
     chk.extra['run_explorations'] = info
     chk.extra['run_covered'] = sorted(cover)
-    need = {'invalid', 'throttled-request', 'started-request', 'already-running-check', 'already-running-reboot', 'scheduled-check',
-            'reboot', 'ondemand-upgrade', 'minimum-wait', 'report-ok', 'report-skipped'}
-    if not need <= cover:
+    need = NEED
+    if single is None and not need <= cover:
         Ds['run-explored'].failed = Ds['run-explored'].failed or ('inconclusive', 'vacuous: not reached: %s' % sorted(need - cover), None, None)
     for name, d in Ds.items():
         f = d.done()
@@ -482,10 +506,3 @@ def waited_report(ex, st, steps, D, cover, bad):
     else:
         if removes:
             bad('waited-for-reboot-report', 'keys removed although nothing was reported')
-
-
-def c18_run(chk):
-    Ds = monitor_run(chk, chk.tier)
-    chk.obligations = [o for o in chk.obligations if o.name not in
-                       ('invalid-apps-never-start', 'check-needs-consent', 'reboot-needs-consent', 'one-truthful-reply', 'timers-follow-policy', 'idle-and-waiting-for-reboot')]
-
